@@ -179,7 +179,9 @@ def worker_cfg(name, symform, seed, tier):
         if nc0 != nc1:
             # symmetric=True with non-square component blocks: the BSR path must refuse explicitly
             got = guard(lambda: canon(assemble.assemble_entries(asm, symmetric=True, format='bsr', layout='packed')))
-            out['reqs'].append(('drv_c08', 'vecbsr 1 %d %d %d %s %s' % (dim, nc1, nc0, nzs, bl), got, 'vec nonsquare symmetric bsr'))
+            out['counts']['nonsquare+symmetric bsr probes'] = 1
+            if not got.startswith('err'):
+                out['violations'].append(('nonsquare-symmetric-accepted', 'symmetric=True with %dx%d component blocks was accepted on the BSR path' % (nc1, nc0), desc, True))
         # subsets of blocks
         for _ in range(4):
             k = int(rng.choice([0, 1, 2, 5, 17]))
